@@ -221,9 +221,10 @@ def var_of_int(cx, body, op, depth=0):
                     if oo.kind == "agg" and oo.data["kind"] == "tuple":
                         idn = node_of_id(cx, body, oo.site.node["rv"]["ops"][0])
                 out.append(("+", key, idn))
-            elif d in ("core::option::Option::unwrap", "core::option::Option::expect"):
+            elif d in ("core::option::Option::unwrap", "core::option::Option::expect", "core::option::Option::take", "core::mem::replace", "core::mem::take"):
+                # `table[id].take().unwrap()`: the entry read while it is cleared is still that entry
                 out += var_of_int(cx, body, args[0], depth + 1)
-            elif d == "core::ops::index::Index::index":
+            elif d in ("core::ops::index::Index::index", "core::ops::index::IndexMut::index_mut"):
                 # table[id] : a per-argument table of variables (dynamic encoders)
                 tbl = _table_key(cx, body, args[0])
                 out.append(("+", ("table", tbl), node_of_id(cx, body, args[1])))
